@@ -156,6 +156,7 @@ func c09Judge(r *SeqRun) []Viol {
 		fill   bool
 		keys   []int64
 		victim int64
+		dup    bool // the benign duplicate pick (zero-value OnEvict): one loop round, nothing removed
 	}
 	var acts []c09Act
 	for _, e := range evs {
@@ -179,6 +180,8 @@ func c09Judge(r *SeqRun) []Viol {
 			if e.B != 0 {
 				victims = append(victims, e.A)
 				acts = append(acts, c09Act{victim: e.A})
+			} else {
+				acts = append(acts, c09Act{dup: true})
 			}
 		case evOnReject:
 			rejected = true
@@ -252,7 +255,57 @@ func c09Judge(r *SeqRun) []Viol {
 		}
 		return m, cnt
 	}
-	for _, v := range victims {
+	// The candidates actually sampled: every range statement over the accounting map is logged
+	// with the keys it handed to the loop body (fillSample stops the loop when the sample is
+	// full), so the sample is reconstructed as a SET: sampled keys minus victims so far. Without
+	// such a log (a change may sample differently) the weaker "some sample of 5" reading is used
+	// for populations above 5.
+	// (OnEvict fires only after the policy has returned, so the log holds all range statements
+	// first and the victims afterwards: the i-th range statement precedes the i-th victim's choice;
+	// a rejection follows one more range statement. Any other shape: not exact.)
+	var fills, evicts []c09Act
+	for _, a := range acts {
+		if a.fill {
+			fills = append(fills, a)
+		} else {
+			evicts = append(evicts, a)
+		}
+	}
+	exact := len(fills) > 0 && (len(fills) == len(evicts) || (rejected && len(fills) == len(evicts)+1))
+	acts = acts[:0]
+	if exact {
+		for i := range fills {
+			acts = append(acts, fills[i])
+			if i < len(evicts) {
+				acts = append(acts, evicts[i])
+			}
+		}
+	} else {
+		acts = append(acts, evicts...)
+	}
+	sample := map[int64]bool{}
+	sampleMin := func() int64 {
+		m := int64(1 << 62)
+		for k := range sample {
+			if est[k] < m {
+				m = est[k]
+			}
+		}
+		return m
+	}
+	for _, a := range acts {
+		if a.fill {
+			for _, k := range a.keys {
+				if remaining[k] {
+					sample[k] = true
+				}
+			}
+			continue
+		}
+		if a.dup {
+			continue
+		}
+		v := a.victim
 		if !remaining[v] {
 			out = append(out, Viol{Key: "C09/victim-not-resident", What: fmt.Sprintf("victim key %d is not an accounted resident: %s", v, desc)})
 			continue
@@ -260,11 +313,18 @@ func c09Judge(r *SeqRun) []Viol {
 		if est[v] > estIn {
 			out = append(out, Viol{Key: "C09/victim-more-frequent-than-newcomer", What: fmt.Sprintf("victim key %d has estimate %d > newcomer's %d: %s", v, est[v], estIn, desc)})
 		}
-		if len(remaining) <= 5 {
+		switch {
+		case exact:
+			if !sample[v] {
+				out = append(out, Viol{Key: "C09/victim-was-not-sampled", What: fmt.Sprintf("victim key %d is not among the sampled candidates %v: %s", v, keysOf(sample), desc)})
+			} else if m := sampleMin(); est[v] != m {
+				out = append(out, Viol{Key: "C09/victim-not-least-frequent-of-sample", What: fmt.Sprintf("victim key %d has estimate %d but the sampled candidate set %v holds one with %d: %s", v, est[v], keysOf(sample), m, desc)})
+			}
+		case len(remaining) <= 5:
 			if m, _ := minOf(); est[v] != m {
 				out = append(out, Viol{Key: "C09/victim-not-least-frequent-of-sample", What: fmt.Sprintf("victim key %d has estimate %d but a sampled candidate has %d (all %d residents are in the sample): %s", v, est[v], m, len(remaining), desc)})
 			}
-		} else {
+		default:
 			// larger populations: the victim must be the minimum of SOME sample of 5
 			ge := 0
 			for k := range remaining {
@@ -277,14 +337,20 @@ func c09Judge(r *SeqRun) []Viol {
 			}
 		}
 		delete(remaining, v)
+		delete(sample, v)
 	}
 	if rejected {
 		// turned away only if strictly less frequent than the least-frequent candidate
-		if len(remaining) <= 5 {
+		switch {
+		case exact:
+			if m := sampleMin(); len(sample) > 0 && !(estIn < m) {
+				out = append(out, Viol{Key: "C09/rejected-although-not-less-frequent", What: fmt.Sprintf("rejected with estimate %d although the least-frequent sampled candidate of %v has %d (victims so far %v): %s", estIn, keysOf(sample), m, victims, desc)})
+			}
+		case len(remaining) <= 5:
 			if m, _ := minOf(); !(estIn < m) {
 				out = append(out, Viol{Key: "C09/rejected-although-not-less-frequent", What: fmt.Sprintf("rejected with estimate %d although the least-frequent remaining candidate has %d (victims so far %v): %s", estIn, m, victims, desc)})
 			}
-		} else {
+		default:
 			gt := 0
 			for k := range remaining {
 				if est[k] > estIn {
@@ -321,6 +387,15 @@ func c09Judge(r *SeqRun) []Viol {
 			}
 		}
 	}
+	return out
+}
+
+func keysOf(m map[int64]bool) []int64 {
+	var out []int64
+	for k := range m {
+		out = append(out, k)
+	}
+	sort.Slice(out, func(i, j int) bool { return out[i] < out[j] })
 	return out
 }
 
@@ -486,6 +561,36 @@ func c09Jobs(tier string) []Job {
 			}
 		}
 	}
+	// populations LARGER than the eviction sample (6 and 7 unit-cost residents, MaxCost 7): the
+	// sample of 5 is a proper subset chosen by the map order; the oracle reconstructs it from the
+	// logged range statements, so "least frequent of the candidates sampled" is judged exactly
+	for _, n := range []int{6, 7} {
+		mf := 1
+		if !quick && n == 6 {
+			mf = 2
+		}
+		costs := make([]int64, n)
+		for i := range costs {
+			costs[i] = 1
+		}
+		total := 1
+		for i := 0; i < n; i++ {
+			total *= mf + 1
+		}
+		for fm := 0; fm < total; fm++ {
+			freq := make([]int, n)
+			x := fm
+			for i := range freq {
+				freq[i] = x % (mf + 1)
+				x /= mf + 1
+			}
+			for _, inCost := range []int64{1, 2, 3} {
+				for inFreq := 0; inFreq <= mf+1; inFreq++ {
+					all = append(all, c09Config{MaxCost: 7, Costs: costs, Freq: freq, InKey: 9, InCost: inCost, InFreq: inFreq, MapOrder: "rot"})
+				}
+			}
+		}
+	}
 	// sequels: a second admission attempt after a resident was deleted (full populations only,
 	// where the first newcomer can be rejected)
 	var seq []c09Config
@@ -494,7 +599,7 @@ func c09Jobs(tier string) []Job {
 		for _, c := range cf.Costs {
 			sum += c
 		}
-		if cf.InKey != 9 || sum != cf.MaxCost || cf.InCost > cf.MaxCost || len(cf.Costs) > 3 || cf.InFreq > 1 {
+		if cf.InKey != 9 || sum != cf.MaxCost || cf.InCost > cf.MaxCost || len(cf.Costs) > 3 || cf.InFreq > 1 || cf.MaxCost > 5 {
 			continue
 		}
 		for d := 1; d <= len(cf.Costs); d++ {
@@ -530,10 +635,10 @@ func c09Jobs(tier string) []Job {
 
 func init() {
 	registerProp(&Prop{ID: "C09", Level: "model_checking",
-		Rule: "exhaustive enumeration of (resident population of 1-4 (thorough: 5) keys x costs in {1,2} that fit x Get counts 0-2 (thorough: 0-3) per resident x incoming new key or already-accounted key x incoming cost in {1,2,3,MaxCost+1} x incoming Get count x MaxCost in {3,5}) " +
+		Rule: "exhaustive enumeration of (resident population of 1-4 (thorough: 5) keys x costs in {1,2} that fit x Get counts 0-2 (thorough: 0-3) per resident x incoming new key or already-accounted key x incoming cost in {1,2,3,MaxCost+1} x incoming Get count x MaxCost in {3,5}) + populations of 6 and 7 unit-cost residents with MaxCost 7 (larger than the eviction sample of 5; Get counts 0-1, thorough 0-2 for 6 residents) " +
 			"x every permutation (n<=4) / rotation (n=5) of the sampling map's iteration order; each configuration is built on the real cache through the public API under the sequential driver (real Gets and policy-goroutine steps drive the TinyLFU counters) and the applier step deciding the incoming item is judged with the estimates read white-box immediately before it: " +
 			"fits => admitted, no victims; otherwise every victim is a minimum-estimate candidate with estimate <= the newcomer's and no victim is evicted needlessly; rejected only if larger than the cache, already accounted, or strictly less frequent than the least-frequent remaining candidate, and then OnReject fires",
-		Assume: []string{"populations <= 5 residents, so the sample of 5 contains every resident and 'least frequent of the sample' is exact", "distinct = (admitted|rejected, number of victims) labels; states = configurations x map orders judged"},
+		Assume: []string{"the candidates sampled are reconstructed (as a set) from the logged range statements over the accounting map: keys handed to the loop body minus victims so far; for populations <= 5 this is every resident", "distinct = (admitted|rejected, number of victims) labels; states = configurations x map orders judged"},
 		Jobs:   c09Jobs,
 		Custom: func(j *Job) *JobResult { return c09Custom(j) },
 		SeqByName: func(name string) *SeqSpec {
